@@ -11,7 +11,8 @@ EXTENDS Integers, Sequences, FiniteSets, TLC
 CONSTANTS
     Contracts,   \* set of concrete contracts (strings)
     ChainSeq,    \* sequence of the chain's contracts, ascending last-trading time
-    ChainLtd     \* sequence of their last-trading times
+    ChainLtd,    \* sequence of their last-trading times
+    ChainOff     \* chain keys: [key |-> month offset] (a chain built with month = m addresses the m-th contract after the lead)
 
 NoPrice == -1
 
@@ -35,11 +36,12 @@ LeadIdx(now) == Cardinality({i \in 1..Len(ChainLtd) : ChainLtd[i] <= now}) + 1
 LeadOk(now) == LeadIdx(now) <= Len(ChainSeq)
 Lead(now) == ChainSeq[LeadIdx(now)]
 
-\* keys: a contract, "s:" \o symbol (the plain string), or "CH" (the chain)
-Keys == Contracts \cup {"CH"} \cup {"s:" \o c : c \in Contracts}
+\* keys: a contract, "s:" \o symbol (the plain string), or a chain key ("CH": the lead, "CH1": one contract down the curve)
+ChainKeys == DOMAIN ChainOff
+Keys == Contracts \cup ChainKeys \cup {"s:" \o c : c \in Contracts}
 StrKey(c) == "s:" \o c
-Resolvable(k, now) == k # "CH" \/ LeadOk(now)
-Resolve(k, now) == IF k = "CH" THEN Lead(now)
+Resolvable(k, now) == k \notin ChainKeys \/ LeadIdx(now) + ChainOff[k] <= Len(ChainSeq)
+Resolve(k, now) == IF k \in ChainKeys THEN ChainSeq[LeadIdx(now) + ChainOff[k]]
                    ELSE IF k \in Contracts THEN k
                    ELSE CHOOSE c \in Contracts : StrKey(c) = k
 =============================================================================
